@@ -52,7 +52,7 @@ def gen_cases(ctx):
 def _mat(case, g):
     dt = zoo.DT[case["dtype"]]
     A64 = zoo.pd_matrix(g, case["n"], case["batch"], kappa=case["kappa"], family=case["family"])
-    if case.get("mixed_scale") and case["batch"]:
+    if case.get("mixed_scale") and case["batch"] and case["mode"] == "minres":
         # systems solved together whose solutions differ by orders of magnitude: the first member is tiny and well conditioned
         idx = (0,) * len(case["batch"])
         A64[idx] = 1e-3 * zoo.pd_matrix(g, case["n"], [], kappa=1.2, family="uniform")
@@ -244,7 +244,8 @@ def run_minres(case, ctx):
                 ctx.fail("scaling_linearity", "value", err=e, **kw)
             else:
                 ctx.ok("scaling_linearity", kb, n >= 2)
-    if case["clause"] == "additivity" and mi is None and case["tol"] <= 1e-8 and kapS <= 1e3 and dt == torch.float64 and pre is None:
+    # (solutions of different right-hand sides live in different Krylov spaces: they only add up once each run has converged)
+    if case["clause"] == "additivity" and mi is None and case["tol"] <= 1e-8 and kapS <= 1e3 and dt == torch.float64 and pre is None and float(Rfin.max()) <= 1e-8:
         B2 = torch.randn(B.shape, generator=g, dtype=torch.float64).to(dt)
         r1, ex1 = compare.attempt(run, B2)
         r12, ex2 = compare.attempt(run, B + B2)
